@@ -204,7 +204,13 @@ def render(frame: dict):
         data = np.full(grid.shape, float(frame.get("value", 0.0)))
     else:
         drops = frame.get("droplets", [])
-        if drops:
+        if drops and any("intensity" in d for d in drops):
+            # droplets of different composition: each one scaled by its own plateau value
+            data = np.zeros(grid.shape)
+            for d in drops:
+                spec = {k: v for k, v in d.items() if k != "intensity"}
+                data = data + float(d.get("intensity", 1.0)) * make_droplet(spec).get_phase_field(grid).data
+        elif drops:
             data = make_emulsion(drops).get_phasefield(grid).data.copy()
         else:
             data = np.zeros(grid.shape)
